@@ -104,8 +104,13 @@ def _case(draw):
         args = []
     steps = []
     cur_sig = sig0
-    for i in range(draw(st.sampled_from([0, 0, 1, 1, 2, 3, 4]))):
-        what = draw(st.sampled_from(['map', 'map', 'list', 'str', 'node-other', 'node-same', 'node-other-merge', 'node-same-merge']))
+    prio_mode = draw(st.integers(0, 4)) == 0
+    # pin mode: some arguments of the first node are tagged !force; every later step changes the target, which must drop them
+    pin_mode = (not prio_mode) and draw(st.integers(0, 5)) == 0
+    prio0 = draw(st.sampled_from([0, 0, 1, -1])) if prio_mode else 0
+    for i in range(draw(st.sampled_from([0, 0, 1, 1, 2, 3, 4]) if not prio_mode else st.sampled_from([1, 2, 3]))):
+        what = draw(st.just('node-other') if prio_mode else st.sampled_from(['node-other', 'str']) if pin_mode else
+                    st.sampled_from(['map', 'map', 'list', 'str', 'node-other', 'node-same', 'node-other-merge', 'node-same-merge']))
         if what == 'map':
             steps.append({'what': 'map', 'args': draw(_args(cur_sig))})
         elif what == 'list':
@@ -117,8 +122,18 @@ def _case(draw):
             if 'other' in what:
                 cur_sig = draw(_sig(i + 1))
             steps.append({'what': 'node', 'sig': cur_sig, 'merge': what.endswith('merge'), 'args': draw(_args(cur_sig)),
-                          'mdstyle': draw(st.sampled_from(['braces', 'hex']))})
-    return {'kind': kind, 'sig': sig0, 'form': form, 'args': args, 'steps': steps}
+                          'mdstyle': draw(st.sampled_from(['braces', 'hex'])),
+                          'prio': draw(st.sampled_from([0, 1, -1])) if prio_mode else 0})
+    if (prio_mode or pin_mode) and form != 'map':
+        form, args = 'map', draw(_args(sig0))
+    pins = []
+    if pin_mode:
+        if not args:
+            args = [['x', ['lit', 3]]]
+        pins = draw(st.lists(st.integers(0, len(args) - 1), min_size=1, max_size=2, unique=True))
+        if not steps:
+            steps.append({'what': 'str', 'sig': draw(_sig(9))})
+    return {'kind': kind, 'sig': sig0, 'form': form, 'args': args, 'steps': steps, 'prio0': prio0, 'pins': pins}
 
 
 def strategy():
@@ -147,9 +162,21 @@ def _val(spec):
     return cur
 
 
-def _fn_node(kind, sig, form, args, merge=False, mdstyle='braces'):
+def _fn_node(kind, sig, form, args, merge=False, mdstyle='braces', prio=0, pins=()):
     tag = f'{kind}:vfrec.{sig}'
+    if pins:
+        items = []
+        for i, (k, v) in enumerate(args):
+            n = _val_node(v)
+            if i in pins:
+                n['prio'] = 1
+                n['mdstyle'] = 'braces'
+            items.append((k, n))
+        return tdoc.mp(items, flow=True, tag=tag)
     fl = {'del': False, 'mdstyle': mdstyle} if merge else {}
+    if prio:
+        fl['prio'] = prio
+        fl['mdstyle'] = mdstyle
     if form == 'map':
         return tdoc.mp([(k, _val_node(v)) for k, v in args], flow=True, tag=tag, **fl)
     if form == 'list':
@@ -164,7 +191,7 @@ def _fn_node(kind, sig, form, args, merge=False, mdstyle='braces'):
 
 def docs(case):
     out = [tdoc.mp([('other', tdoc.sc(41)), ('deep', tdoc.mp([('leaf', tdoc.sc('L'))])),
-                    ('f', _fn_node(case['kind'], case['sig'], case['form'], case['args']))])]
+                    ('f', _fn_node(case['kind'], case['sig'], case['form'], case['args'], prio=case.get('prio0', 0), pins=case.get('pins', ())))])]
     for s in case['steps']:
         if s['what'] == 'map':
             n = tdoc.mp([(k, _val_node(v)) for k, v in s['args']], flow=True)
@@ -173,7 +200,7 @@ def docs(case):
         elif s['what'] == 'str':
             n = tdoc.sc('vfrec.' + s['sig'])
         else:
-            n = _fn_node(case['kind'], s['sig'], 'map', s['args'], merge=s['merge'], mdstyle=s['mdstyle'])
+            n = _fn_node(case['kind'], s['sig'], 'map', s['args'], merge=s['merge'], mdstyle=s['mdstyle'], prio=s.get('prio', 0))
         out.append(tdoc.mp([('f', n)]))
     return out
 
@@ -181,7 +208,12 @@ def docs(case):
 def model_state(case):
     target = case['sig']
     args = {k: _val(v) for k, v in case['args']}
+    cur_p = case.get('prio0', 0)
     for s in case['steps']:
+        if s['what'] == 'node' and s.get('prio', 0) < cur_p and s['sig'] != target:
+            continue        # a lower-priority function node naming another target loses as a whole (C03 rule applied to the node)
+        if s['what'] == 'node':
+            cur_p = s.get('prio', 0)
         if s['what'] == 'map':
             args.update({k: _val(v) for k, v in s['args']})
         elif s['what'] == 'list':
@@ -228,6 +260,10 @@ def run_case(case):
     target = getattr(vfrec, target_name)
     po, pk, nd, ko, va, vk = vfrec.sig_params(target_name)
     labels = {'kind=' + case['kind'], 'form=' + case['form'], 'steps=%d' % len(case['steps'])}
+    if case.get('prio0') or any(s.get('prio') for s in case['steps']):
+        labels.add('priorities-on-function-nodes')
+    if case.get('pins'):
+        labels.add('force-pinned-arguments-then-retarget')
     for s in case['steps']:
         labels.add('step=' + s['what'] + ('-merge' if s.get('merge') else ''))
     nontrivial = len(case['steps']) >= 2
@@ -277,10 +313,10 @@ def run_case(case):
         raise Violation(f'C13: {case["kind"]} of {target_name} with {args!r} should give {expected[1]!r} but the build failed: {type(got).__name__}: {got}{src}')
     f = got['f']
     if case['kind'] == '!call':
-        if O.canon(O.to_builtin(f)) != O.canon(expected[1]):
+        if O.canon_unordered(O.to_builtin(f)) != O.canon_unordered(expected[1]):      # the order of keyword arguments carries no meaning
             raise Violation(f'C13: !call returned {O.to_builtin(f)!r}, python binding gives {expected[1]!r} (target {target_name}, args {args!r}){src}')
     else:
-        if not isinstance(f, functools.partial) or f.func is not target or O.canon(list(f.args)) != O.canon(pos) or O.canon(dict(f.keywords)) != O.canon(kw):
+        if not isinstance(f, functools.partial) or f.func is not target or O.canon(list(f.args)) != O.canon(pos) or O.canon_unordered(dict(f.keywords)) != O.canon_unordered(kw):
             raise Violation(f'C13: !bind gave {f!r}; expected partial({target_name}, *{pos!r}, **{kw!r}){src}')
         if vfrec.LOG:
             raise Violation(f'C13: !bind called the target{src}')
